@@ -47,6 +47,7 @@ var pureFuncs = map[string]interface{}{
 	"math/bits.RotateLeft32": bits.RotateLeft32, "math/bits.RotateLeft64": bits.RotateLeft64,
 	"path/filepath.Join": filepath.Join, "path/filepath.Ext": filepath.Ext, "path/filepath.Clean": filepath.Clean,
 	"path/filepath.Base": filepath.Base, "path/filepath.Dir": filepath.Dir, "path/filepath.IsAbs": filepath.IsAbs,
+	"path/filepath.Match": filepath.Match, "path.Match": path.Match, "path/filepath.Rel": filepath.Rel,
 	"path.Join": path.Join, "path.Base": path.Base, "path.Dir": path.Dir, "path.Ext": path.Ext, "path.Clean": path.Clean,
 	"unicode.IsUpper": unicode.IsUpper, "unicode.IsLower": unicode.IsLower, "unicode.IsDigit": unicode.IsDigit,
 	"unicode.IsLetter": unicode.IsLetter, "unicode.IsSpace": unicode.IsSpace, "unicode.ToUpper": unicode.ToUpper, "unicode.ToLower": unicode.ToLower,
@@ -176,7 +177,7 @@ func (in *Interp) callThrough(name string, fn *ssa.Function, args []Value) (Valu
 	}
 	fv := reflect.ValueOf(f)
 	ft := fv.Type()
-	if ft.IsVariadic() || ft.NumIn() != len(args) {
+	if ft.NumIn() != len(args) {
 		return nil, false
 	}
 	gargs := make([]reflect.Value, len(args))
@@ -195,7 +196,11 @@ func (in *Interp) callThrough(name string, fn *ssa.Function, args []Value) (Valu
 				panicked = true
 			}
 		}()
-		outs = fv.Call(gargs)
+		if ft.IsVariadic() {
+			outs = fv.CallSlice(gargs) // SSA passes the variadic tail as one slice
+		} else {
+			outs = fv.Call(gargs)
+		}
 	}()
 	if panicked {
 		in.goPanic("panic in " + name)
